@@ -29,8 +29,22 @@ Definition write_cntx_of (secs : list sec) (x : cntx) : result (list string) :=
   Ok (flatten (frame_blocks (x_cnt x) bs)).
 
 (* reader: Model.read_cnt_with with the label decision of _read_cnt_cflux *)
-Definition read_cntx_with (pats : list ipat) (ngs : list (string * list Z)) (ls : list string)
-  : result (rcnt * option (list (Z * dec))) :=
+(* rows -> table of one label (read_kind on given rows) *)
+Definition read_rows_kind (ngs : list (string * list Z)) (rows : list (list string))
+  : result (option (list (Z * dec))) :=
+  match rows with
+  | [] => Ok None
+  | _ => rows' <- extend ngs rows ;; t <- mapM read_value_row rows' ;; Ok (Some t)
+  end.
+
+Definition typed_block (b : pblock) : bool :=
+  match capture "TYPE=" (fst b) with Some _ => true | None => false end.
+Definition selected := FV.C01.Model.selected.
+
+(* [per_block] = the translated flag: with one TYPE=PURE block, the blocks without TYPE= are
+   labelled 'cflux' (true: each block by its own header) or everything is 'pure_cflux' (false) *)
+Definition read_cntx_with (per_block : bool) (pats : list ipat) (ngs : list (string * list Z))
+           (ls : list string) : result (rcnt * option (list (Z * dec))) :=
   sol <- read_solution (filter (keep pats) ls) ;;
   let bs := parse_blocks pats ls in
   sp <- read_kind "!SPRING" ngs read_dof_row bs ;;
@@ -43,7 +57,12 @@ Definition read_cntx_with (pats : list ipat) (ngs : list (string * list Z)) (ls 
     match captures "TYPE=" (extract_headers "!CFLUX" bs) with
     | [] => cf <- read_kind "!CFLUX" ngs read_value_row bs ;; Ok (mkrcnt sol bd sp cl ft cf, None)
     | [t] => if String.eqb t "PURE"
-             then cf <- read_kind "!CFLUX" ngs read_value_row bs ;; Ok (mkrcnt sol bd sp cl ft None, cf)
+             then if per_block
+                  then cf <- read_rows_kind ngs (concat (map snd (filter (fun b => negb (typed_block b))
+                                                                         (selected "!CFLUX" bs)))) ;;
+                       pf <- read_rows_kind ngs (concat (map snd (filter typed_block (selected "!CFLUX" bs)))) ;;
+                       Ok (mkrcnt sol bd sp cl ft cf, pf)
+                  else cf <- read_kind "!CFLUX" ngs read_value_row bs ;; Ok (mkrcnt sol bd sp cl ft None, cf)
              else Err "ValueError: Unsupported CFLUX configuration"
     | _ :: _ :: _ => Err "ValueError: Lengths must match to compare (types == ['PURE'] on a Series)"
     end
@@ -57,8 +76,8 @@ Definition show_rcntx (r : result (rcnt * option (list (Z * dec)))) : list strin
 
 (* ------------------------------------------------------------------ *)
 (* files the base model reads are read the same way, with no pure_cflux *)
-Lemma read_cntx_conservative pats ngs ls r :
-  read_cnt_with pats ngs ls = Ok r -> read_cntx_with pats ngs ls = Ok (r, None).
+Lemma read_cntx_conservative per_block pats ngs ls r :
+  read_cnt_with pats ngs ls = Ok r -> read_cntx_with per_block pats ngs ls = Ok (r, None).
 Proof.
   unfold read_cnt_with, read_cntx_with.
   destruct (read_solution (filter (keep pats) ls)) as [sol|]; cbn [bind]; [|discriminate].
